@@ -32,7 +32,7 @@ Definition holds (p : mpc) : option nat :=
   | _ => None
   end.
 
-Definition cstep1 (mutex : bool) (t : list (ckey * N)) (g : N) (h : list nat) (p : mpc)
+Definition cstep1g (inc : N -> N) (mutex : bool) (t : list (ckey * N)) (g : N) (h : list nat) (p : mpc)
   : list (ckey * N) * N * list nat * mpc :=
   match p with
   | MStart m k =>
@@ -42,18 +42,24 @@ Definition cstep1 (mutex : bool) (t : list (ckey * N)) (g : N) (h : list nat) (p
                  | Some v => (t, g, h, MUnlock m k v)
                  | None => (t, g, h, MMiss m k)
                  end
-  | MMiss m k => (t, g + 1, h, MStore m k (g + 1))                 (* atomic.AddUint64(&g.uids, 1) *)
+  | MMiss m k => (t, inc g, h, MStore m k (inc g))                 (* atomic.AddUint64(&g.uids, 1) *)
   | MStore m k v => (((m, k), v) :: t, g, h, MUnlock m k v)        (* a Go map assignment replaces *)
   | MUnlock m k r => (t, g, filter (fun x => negb (Nat.eqb m x)) h, MDone m k r)
   | MDone _ _ _ => (t, g, h, p)
   end.
 
-Definition cstep (mutex : bool) (s : cstate) (i : nat) : cstate :=
+Definition cstepg (inc : N -> N) (mutex : bool) (s : cstate) (i : nat) : cstate :=
   match nth_error (c_thr s) i with
   | None => s
-  | Some p => let '(t, g, h, p') := cstep1 mutex (c_tbl s) (c_gen s) (c_held s) p in mkC t g h (upd i p' (c_thr s))
+  | Some p => let '(t, g, h, p') := cstep1g inc mutex (c_tbl s) (c_gen s) (c_held s) p in mkC t g h (upd i p' (c_thr s))
   end.
-Definition crun (mutex : bool) (s : cstate) (sched : list nat) : cstate := fold_left (cstep mutex) sched s.
+Definition crung (inc : N -> N) (mutex : bool) (s : cstate) (sched : list nat) : cstate := fold_left (cstepg inc mutex) sched s.
+(** the code: uids is a uint64, AddUint64 wraps at 2^64 *)
+Definition cstep := cstepg inc64.
+Definition crun := crung inc64.
+(** the unbounded counter, used by the proofs; shown below to coincide with the uint64 one under the bound *)
+Notation cstep_i := (cstepg (fun n => n + 1)).
+Notation crun_i := (crung (fun n => n + 1)).
 Definition cinit (reqs : list ckey) : cstate := mkC [] 0 [] (map (fun r => MStart (fst r) (snd r)) reqs).
 
 Lemma ckey_eqb_eq a b : ckey_eqb a b = true <-> a = b.
@@ -128,11 +134,11 @@ Proof.
   apply existsb_exists. exists m. split; [exact Hin|apply Nat.eqb_refl].
 Qed.
 
-Lemma cstep_inv s i : CInv s -> CInv (cstep true s i).
+Lemma cstep_inv s i : CInv s -> CInv (cstep_i true s i).
 Proof.
-  intros I. unfold cstep. destruct (nth_error (c_thr s) i) as [p|] eqn:Ep; [|exact I].
+  intros I. unfold cstepg. destruct (nth_error (c_thr s) i) as [p|] eqn:Ep; [|exact I].
   pose proof I as [Irng Iinj Imiss Istore Iuniq Ires Iexcl Iheld].
-  destruct p as [m k|m k|m k|m k v|m k r|m k r]; cbn [cstep1 andb].
+  destruct p as [m k|m k|m k|m k v|m k r|m k r]; cbn [cstep1g andb].
   - (* Lock *)
     destruct (existsb (Nat.eqb m) (c_held s)) eqn:Eh.
     + eapply cstep_keep; eauto; intros; try discriminate. destruct H as [H|H]; discriminate.
@@ -224,32 +230,32 @@ Proof.
     destruct H as [H|H]; inversion H; subst. eapply Ires; eauto.
 Qed.
 
-Lemma crun_inv sched : forall s, CInv s -> CInv (crun true s sched).
+Lemma crun_inv sched : forall s, CInv s -> CInv (crun_i true s sched).
 Proof.
-  unfold crun. induction sched as [|i sched IH]; intros s I; cbn; [exact I|]. apply IH. now apply cstep_inv.
+  unfold crung. induction sched as [|i sched IH]; intros s I; cbn; [exact I|]. apply IH. now apply cstep_inv.
 Qed.
 
 Lemma cstep_done_stable b s i j m k r :
-  nth_error (c_thr s) j = Some (MDone m k r) -> nth_error (c_thr (cstep b s i)) j = Some (MDone m k r).
+  nth_error (c_thr s) j = Some (MDone m k r) -> nth_error (c_thr (cstep_i b s i)) j = Some (MDone m k r).
 Proof.
-  intros H. unfold cstep. destruct (nth_error (c_thr s) i) as [p|] eqn:Ep; [|exact H].
-  destruct (cstep1 b (c_tbl s) (c_gen s) (c_held s) p) as [[[t g] h] p'] eqn:E. cbn [c_thr].
+  intros H. unfold cstepg. destruct (nth_error (c_thr s) i) as [p|] eqn:Ep; [|exact H].
+  destruct (cstep1g (fun n => n + 1) b (c_tbl s) (c_gen s) (c_held s) p) as [[[t g] h] p'] eqn:E. cbn [c_thr].
   rewrite nth_upd. destruct (Nat.eqb_spec i j) as [->|]; [|exact H].
   rewrite Ep. rewrite Ep in H. inversion H; subst. cbn in E. inversion E; subst. reflexivity.
 Qed.
 Lemma crun_done_stable b sched : forall s j m k r,
-  nth_error (c_thr s) j = Some (MDone m k r) -> nth_error (c_thr (crun b s sched)) j = Some (MDone m k r).
+  nth_error (c_thr s) j = Some (MDone m k r) -> nth_error (c_thr (crun_i b s sched)) j = Some (MDone m k r).
 Proof.
-  unfold crun. induction sched as [|i sched IH]; intros s j m k r H; cbn; [exact H|]. apply IH. now apply cstep_done_stable.
+  unfold crung. induction sched as [|i sched IH]; intros s j m k r H; cbn; [exact H|]. apply IH. now apply cstep_done_stable.
 Qed.
 
 (** C20_mapper, interleaved: any requests (Mapper, source path), any schedule:
     what a call returned is what every later call for the same Mapper and
     source path returns; different (Mapper, source path) never share a path
     (one generator); no path is 0. *)
-Theorem mapper_all_interleavings reqs sched sched2 i j m k r m' k' r' :
-  let s := crun true (cinit reqs) sched in
-  let s2 := crun true s sched2 in
+Theorem mapper_all_interleavings_i reqs sched sched2 i j m k r m' k' r' :
+  let s := crun_i true (cinit reqs) sched in
+  let s2 := crun_i true s sched2 in
   nth_error (c_thr s) i = Some (MDone m k r) ->
   nth_error (c_thr s2) j = Some (MDone m' k' r') ->
   nth_error (c_thr s2) i = Some (MDone m k r) /\ ((m, k) = (m', k') <-> r = r') /\ 0 < r /\ 0 < r'.
@@ -266,8 +272,8 @@ Proof.
 Qed.
 
 (** mutual exclusion itself: never two calls inside the same Mapper's critical section *)
-Theorem mapper_mutex reqs sched i j p p' m :
-  let s := crun true (cinit reqs) sched in
+Theorem mapper_mutex_i reqs sched i j p p' m :
+  let s := crun_i true (cinit reqs) sched in
   nth_error (c_thr s) i = Some p -> nth_error (c_thr s) j = Some p' ->
   holds p = Some m -> holds p' = Some m -> i = j.
 Proof. intros s. apply (ci_excl _ (crun_inv sched _ (cinit_inv reqs))). Qed.
@@ -279,3 +285,59 @@ Lemma mapper_unlocked_refuted :
   let s := crun false (cinit [(0%nat, 5); (0%nat, 5)]) [0; 0; 1; 1; 0; 1; 0; 1; 0; 1]%nat in
   nth_error (c_thr s) 0 = Some (MDone 0 5 1) /\ nth_error (c_thr s) 1 = Some (MDone 0 5 2).
 Proof. vm_compute. split; reflexivity. Qed.
+
+(** * the uint64 generator coincides with the unbounded one while fewer than 2^64 steps are taken *)
+Lemma cstep_eq_i b s i : c_gen s + 1 < two64 -> cstep b s i = cstep_i b s i.
+Proof.
+  intros H. unfold cstep, cstepg. destruct (nth_error (c_thr s) i) as [p|]; [|reflexivity].
+  destruct p; cbn [cstep1g]; try reflexivity. now rewrite inc64_small.
+Qed.
+
+Lemma cstep_i_gen b s i : c_gen (cstep_i b s i) <= c_gen s + 1.
+Proof.
+  unfold cstepg. destruct (nth_error (c_thr s) i) as [p|]; [|lia].
+  destruct p as [m k|m k|m k|m k v|m k r|m k r]; cbn [cstep1g].
+  - destruct (b && existsb (Nat.eqb m) (c_held s)); cbn [c_gen]; lia.
+  - destruct (clookup (m, k) (c_tbl s)); cbn [c_gen]; lia.
+  - cbn [c_gen]; lia.
+  - cbn [c_gen]; lia.
+  - cbn [c_gen]; lia.
+  - cbn [c_gen]; lia.
+Qed.
+
+Lemma crun_eq_i b sched : forall s, c_gen s + N.of_nat (length sched) < two64 -> crun b s sched = crun_i b s sched.
+Proof.
+  unfold crun, crung. induction sched as [|i sched IH]; intros s H; [reflexivity|].
+  cbn [fold_left length] in *. change (cstepg inc64 b s i) with (cstep b s i).
+  rewrite cstep_eq_i by lia. apply IH. pose proof (cstep_i_gen b s i). lia.
+Qed.
+
+Lemma crun_app inc b s x y : crung inc b s (x ++ y) = crung inc b (crung inc b s x) y.
+Proof. unfold crung. apply fold_left_app. Qed.
+
+(** C20_mapper for the uint64 generator: schedules of fewer than 2^64 steps in total *)
+Theorem mapper_all_interleavings reqs sched sched2 i j m k r m' k' r' :
+  N.of_nat (length sched + length sched2) < two64 ->
+  let s := crun true (cinit reqs) sched in
+  let s2 := crun true s sched2 in
+  nth_error (c_thr s) i = Some (MDone m k r) ->
+  nth_error (c_thr s2) j = Some (MDone m' k' r') ->
+  nth_error (c_thr s2) i = Some (MDone m k r) /\ ((m, k) = (m', k') <-> r = r') /\ 0 < r /\ 0 < r'.
+Proof.
+  intros Hb s s2.
+  assert (E1 : s = crun_i true (cinit reqs) sched).
+  { unfold s. apply crun_eq_i. cbn [cinit c_gen]. lia. }
+  assert (E2 : s2 = crun_i true (crun_i true (cinit reqs) sched) sched2).
+  { unfold s2, s. unfold crun. rewrite <- !crun_app. apply (crun_eq_i true (sched ++ sched2)). cbn [cinit c_gen]. rewrite app_length. lia. }
+  rewrite E1, E2. apply mapper_all_interleavings_i.
+Qed.
+
+Theorem mapper_mutex reqs sched i j p p' m :
+  N.of_nat (length sched) < two64 ->
+  let s := crun true (cinit reqs) sched in
+  nth_error (c_thr s) i = Some p -> nth_error (c_thr s) j = Some p' ->
+  holds p = Some m -> holds p' = Some m -> i = j.
+Proof.
+  intros Hb s. assert (E : s = crun_i true (cinit reqs) sched) by (apply crun_eq_i; cbn [cinit c_gen]; lia).
+  rewrite E. apply mapper_mutex_i.
+Qed.
